@@ -72,6 +72,12 @@ def make_records(tier, seed):
         for win in ((off, off + 10), (off + rng.randint(0, 3), off + rng.randint(4, 12)), (off + 2, off + 2), None):
             # None: the default window - from 0 up to and including the largest member
             start, end = win if win else (0, (max(members) + 1) if members else 0)
+            if mask % 5 == 0:
+                for bad_call in (lambda: su.parse_int_list("1-x,3"), lambda: su.format_int_list([1, "y"]), lambda: su.complement_int_list("2-")):
+                    try:
+                        bad_call()
+                    except Exception:
+                        pass
             try:
                 text = su.format_int_list(given)
                 handed = su.parse_int_list(text)
@@ -91,8 +97,20 @@ def make_records(tier, seed):
     # gzip: framing + round trip
     datas = [bytes(p) for n in range(0, 4) for p in itertools.product([0, 1, 65, 255], repeat=n)]
     datas += [b"", b"x" * 65536, bytes(rng.getrandbits(8) for _ in range(5000)), b"ab" * 40000, "héllo wörld".encode()]
+    # calls the functions must refuse, made in between the recorded ones: a refused call leaves nothing behind that the
+    # next valid call could pick up
+    refused = [lambda: su.gzip_bytes("text, not bytes"), lambda: su.gzip_bytes(b"abc", level=99), lambda: su.gzip_bytes(None),
+               lambda: su.gunzip_bytes(b"\x1f\x8b\x08\x00 not a gzip member"), lambda: su.gzip_bytes([1, "x"]),
+               lambda: su.gunzip_bytes("text")]
+    ncall = 0
     for data in datas:
         for level in (range(1, 10) if len(data) > 2 or thorough else (1, 6, 9)):
+            ncall += 1
+            if ncall % 3 == 0:
+                try:
+                    refused[(ncall // 3) % len(refused)]()
+                except Exception:
+                    pass
             try:
                 z = su.gzip_bytes(data, level=level)
                 back = su.gunzip_bytes(z)
